@@ -90,6 +90,10 @@ func (re *Regexp) run(quick bool, textstart, previousMatchLength int, input []ru
 			textstart = 0
 		}
 	}
+	if textstart > len(input) {
+		// a start past the end would produce matches that point outside the input
+		return nil, errStringStartAtTooLarge
+	}
 	if quick && textInfo == nil && re.quickCode != nil {
 		runner.code = re.quickCode
 	}
